@@ -368,7 +368,10 @@ Inductive op :=
 | EndCompetition.                                        (* endCompetition() *)
 
 Record lstate := mkL {
-  active     : option inst;   (* self.active_mode *)
+  active     : option inst;   (* self.active_mode: None, or the selected instance.  The code tests
+                                 "is not None"; the TRUTH VALUE of an instance (a mode class may define
+                                 __len__ or __bool__ and make its instances falsy) is not an input of the
+                                 model, so every lifecycle theorem holds whatever it is *)
   timer      : option Z;      (* start instant of self.timer; None: attribute not created yet *)
   robot_exit : bool
 }.
